@@ -24,6 +24,7 @@
 #include "orange/transform/Transformation.hh"
 #include "orange/transform/Translation.hh"
 #include "oracle/geo_oracle.hh"
+#include "problems/geo_zoo_arrays.hh"
 
 namespace vf
 {
@@ -256,6 +257,32 @@ inline OrangeInput zoo_g5()
     return zoo_build(UnitProto{std::move(inp)});
 }
 
+// G6: volumes whose logic applies "|" WHILE ANOTHER OPERAND IS PENDING beneath it
+// (all{sphere, any{slab, slab}} -> postfix "S A.. B.. | &"): the left and right caps of a ball,
+// and a frame all{box, any{bar, bar, bar}}; the union operands do not overlap, so every
+// combination "pending operand false / first operand of the | true" is met by some ray or point
+inline OrangeInput zoo_g6()
+{
+    UnitProto::Input inp;
+    inp.label = "g6";
+    inp.boundary.interior = zoo_box("world", {5, 5, 5});
+    auto ball = zoo_sph("ball", 2.0);
+    auto left = zoo_tr(zoo_box("left", {0.45, 3, 3}), Translation{{-1.45, 0, 0}});
+    auto right = zoo_tr(zoo_box("right", {0.6, 3, 3}), Translation{{1.3, 0.1, 0}});
+    auto slabs = std::make_shared<AnyObjects>("slabs", std::vector<SPConstObject>{left, right});
+    inp.materials.push_back(
+        zoo_mat(std::make_shared<AllObjects>("caps", std::vector<SPConstObject>{ball, slabs}), 1));
+    auto plate = zoo_tr(zoo_box("plate", {1.5, 1.0, 0.4}), Translation{{0, 3.2, -3.5}});
+    auto b1 = zoo_tr(zoo_box("b1", {0.2, 2, 2}), Translation{{-1.0, 3.2, -3.5}});
+    auto b2 = zoo_tr(zoo_box("b2", {0.2, 2, 2}), Translation{{0.1, 3.2, -3.5}});
+    auto b3 = zoo_tr(zoo_box("b3", {0.15, 2, 2}), Translation{{1.2, 3.2, -3.5}});
+    auto bars = std::make_shared<AnyObjects>("bars", std::vector<SPConstObject>{b1, b2, b3});
+    inp.materials.push_back(
+        zoo_mat(std::make_shared<AllObjects>("frame", std::vector<SPConstObject>{plate, bars}), 2));
+    inp.background.fill = GeoMaterialId{0};
+    return zoo_build(UnitProto{std::move(inp)});
+}
+
 inline OrangeInput load_org_json(std::string const& path)
 {
     OrangeInput inp;
@@ -286,6 +313,14 @@ inline std::vector<ZooEntry> zoo_entries(bool with_files = true, bool extended =
         v.push_back({"g3." + std::to_string(k), "", 3, k});
     v.push_back({"g4", "", 4, 0});
     v.push_back({"g5", "", 5, 0});
+    if (extended)
+    {
+        v.push_back({"g6", "", 6, 0});
+        // rectangular arrays with unequal cell counts (problems/geo_zoo_arrays.hh)
+        v.push_back({"ra5x2x1", "", 7, 521});
+        v.push_back({"ra2x5x1", "", 7, 251});
+        v.push_back({"ra1x2x6", "", 7, 126});
+    }
     if (with_files)
     {
         char const* repo = getenv("VERIF_REPO");
@@ -334,6 +369,10 @@ inline std::unique_ptr<GeoEnv> zoo_make(ZooEntry const& e, size_type slots = 2)
         case 3: return make_env(e.name, zoo_g3(e.variant), slots);
         case 4: return make_env(e.name, zoo_g4(), slots);
         case 5: return make_env(e.name, zoo_g5(), slots);
+        case 6: return make_env(e.name, zoo_g6(), slots);
+        case 7:
+            return make_env(e.name, zoo_array(e.variant / 100, (e.variant / 10) % 10, e.variant % 10),
+                            slots);
     }
     throw std::runtime_error("bad zoo entry");
 }
